@@ -1,7 +1,7 @@
 (* C02 — Token conservation: supply equals balances; only mint/burn move it. Statements only. *)
 From Coq Require Import List ZArith NArith Bool.
 From PM Require Import Base.Bytes Store.KV Store.MergeProofs Num.IntModel Num.DecModel Num.DecProofs
-  App.Model App.BankProofs App.TxProofs App.KeyProofs App.Examples.
+  App.Model App.BankProofs App.TxProofs App.KeyTypes App.KeyProofs App.Examples.
 Import ListNotations.
 Local Open Scope Z_scope.
 
@@ -28,6 +28,13 @@ Proof. exact ex_s0_bank_ok. Qed.
 Example C02_ex_history : exists s, ex_final = Some s /\ supply s = 10000547 /\
   aget (accts s) A2 = Some 3000000 /\ aget (vals s) A2 = None /\ aget (accts s) A3 = Some 47.
 Proof. exact ex_final_some. Qed.
+(* ... and in every history run under consensus parameters that admit ed25519 validator keys only (run_cp true: deliver_tx_cp
+   in the place of deliver_tx), which without the restriction is the ordinary history *)
+Theorem C02_all_histories_under_key_restriction r ops s s' : bank_ok s -> run_cp r ops s = Some s' -> bank_ok s'.
+Proof. exact (run_cp_bank_ok r ops s s'). Qed.
+Theorem C02_unrestricted_history_is_the_ordinary_one ops s : run_cp false ops s = run ops s.
+Proof. exact (run_cp_unrestricted ops s). Qed.
 Print Assumptions C02_all_histories.
+Print Assumptions C02_all_histories_under_key_restriction.
 Print Assumptions C02_genesis.
 Print Assumptions C02_mint_exact.
